@@ -445,8 +445,9 @@ def public_cfg(cfg):
 
 # ------------------------------------------------------------------ one configuration
 ENV_KW = {"timer_policy": "when", "order": ("start", "ext", "timer")}
-WATCHDOG_S = 5       # an execution takes milliseconds; a callback that runs for seconds never yields
-_SPUN = False        # this worker has already seen a spinning callback: later ones are given 1 s only
+WATCHDOG_S = 2       # CPU seconds; an execution takes milliseconds: a callback that burns seconds never yields
+WATCHDOG_AFTER = 0.25  # once a spinning callback was seen (by any worker: marker file) later ones get this much
+_SPUN = False
 
 
 def explore(task):
@@ -471,8 +472,12 @@ def explore(task):
 
     def on_exec(env, w, info):
         global _SPUN
-        if info["outcome"] == "spin":
+        if info["outcome"] == "spin" and not _SPUN:
             _SPUN = True
+            try:
+                open(os.path.join(cfg["scratch"], "spin-seen"), "w").close()
+            except OSError:
+                pass
         if cfg.get("count_dev") is not None and info["deviations"] != cfg["count_dev"]:
             return          # already counted by the run with the smaller deviation bound
         counts["schedules"] += 1
@@ -541,7 +546,8 @@ def explore(task):
         ex = aio.Explorer(
             make, on_exec, observe=observe, max_choices=cfg.get("max_choices", 120), max_deviations=max_dev,
             validate_mod=cfg.get("val_mod", 0), deadline=limit, on_step=on_step,
-            watchdog_s=1 if _SPUN else WATCHDOG_S,
+            watchdog_s=WATCHDOG_AFTER if _SPUN or os.path.exists(os.path.join(cfg["scratch"], "spin-seen"))
+            else WATCHDOG_S,
             granularity=cfg.get("granularity", "quiescence"), max_handles=cfg.get("max_handles", 20000), **ENV_KW)
         return ex.run()
 
